@@ -55,6 +55,24 @@ Proof.
     apply negb_false_iff in Cm. apply val_in_In in Cm. destruct Cm as [Cm|[]]. now symmetry.
 Qed.
 
+(* a tcp or udp proxy accepted by CLIENT-side validation has its remotePort in 0..65535 *)
+Lemma validated_remote_port_in_range ann_ok plugin_ok pc :
+  val_proxy_client ann_ok plugin_ok pc = VOk ->
+  (forall c, pc = Cfg_TCPProxyConfig c -> 0 <= TCPProxyConfig_RemotePort c <= 65535) /\
+  (forall c, pc = Cfg_UDPProxyConfig c -> 0 <= UDPProxyConfig_RemotePort c <= 65535).
+Proof.
+  intros H. split; intros c ->; unfold val_proxy_client in H;
+    destruct (val_base_client _ _ _); try discriminate.
+  - destruct (val_port (TCPProxyConfig_RemotePort c)) eqn:E; [now apply val_port_range|discriminate].
+  - destruct (val_port (UDPProxyConfig_RemotePort c)) eqn:E; [now apply val_port_range|discriminate].
+Qed.
+
+(* the server-side path is unchanged: it does not look at the remote port (the port manager decides) *)
+Lemma server_side_ignores_remote_port ann_ok s c p :
+  val_proxy_server ann_ok (Cfg_TCPProxyConfig (set_TCPProxyConfig_RemotePort p c)) s =
+  val_proxy_server ann_ok (Cfg_TCPProxyConfig c) s.
+Proof. destruct c. reflexivity. Qed.
+
 (* ---- custom domains vs subDomainHost ---- *)
 Fixpoint count_sep (sep : byte) (s : bytes) : nat :=
   match s with [] => O | b :: r => (if Byte.eqb b sep then 1 else 0) + count_sep sep r end%nat.
